@@ -1,7 +1,9 @@
 (* Tie between the facts regenerated from rpyc/lib/colls.py, rpyc/core/protocol.py and rpyc/core/netref.py
    (gen/Gen_colls.v) and the parameters the C10 theorems are proved for.  Every lemma is by computation:
    a change of a constant, of the comparison in decref, of the count sent by the finalizer or of what
-   _cleanup clears makes this file stop compiling. *)
+   _cleanup clears makes this file stop compiling.  The three close-path facts (does _async_request refuse
+   before boxing on a closed channel / can on_disconnect skip the clear / is _cleanup called in close()'s finally)
+   may be true or false: the theorems are proved for both values and guarded by them. *)
 From V Require Import lib.Base model.Refcount gen.Gen_colls.
 Open Scope Z_scope.
 
@@ -14,9 +16,12 @@ Proof. repeat split. Qed.
 (* a fresh proxy counts 1, a cache hit in _unbox adds 1, the finalizer sends the whole count *)
 Lemma tie_proxy : Gen_colls.proxy_init = 1 /\ Gen_colls.unbox_inc = 1 /\ Gen_colls.del_src = DRefcount.
 Proof. repeat split. Qed.
+(* _cleanup contains the clear; _dispatch_request stores the traceback of a failing call (the model's tbo / pin) *)
 Lemma tie_cleanup : Gen_colls.cleanup_clears = true.
 Proof. reflexivity. Qed.
+Lemma tie_last_traceback : Gen_colls.keeps_last_traceback = true.
+Proof. reflexivity. Qed.
 
-(* the parameters of the current tree are the ones of the proofs *)
-Lemma tie_params : Gen_colls.params = std_params.
+(* the parameters of the current tree are the ones of the proofs, instantiated with the tree's close-path facts *)
+Lemma tie_params : Gen_colls.params = stdp Gen_colls.send_checks_closed Gen_colls.cleanup_guarded Gen_colls.close_finally.
 Proof. reflexivity. Qed.
